@@ -253,6 +253,11 @@ theorem mem_setL {sl : Slots} {i : Nat} {h : HV} {e : Nat × HV} (he : e ∈ set
   · right; simp only [hxi, beq_self_eq_true, if_true, true_and]; exact ⟨x, hx, hxi⟩
   · left; simp [hxi, hx]
 
+theorem mem_setL_of_ne {sl : Slots} {i : Nat} {h : HV} {e : Nat × HV} (he : e ∈ sl) (hne : e.1 ≠ i) :
+    e ∈ setL sl i h := by
+  simp only [setL, List.mem_map]
+  exact ⟨e, he, by simp [hne]⟩
+
 theorem mem_setL_new {sl : Slots} {i : Nat} {h h0 : HV} (hm : (i, h0) ∈ sl) : (i, h) ∈ setL sl i h := by
   simp only [setL, List.mem_map]
   exact ⟨(i, h0), hm, by simp⟩
